@@ -31,15 +31,25 @@ class C12(Prop):
         return st.fixed_dictionaries({"design": gen_ir.recipes(self.cfg(tier)),
                                       "sample": st.integers(0, 1000)})
 
+    def fixed_cases(self, tier):
+        return gen_ir.example_cases(tier, quick_limit=4000, thorough_limit=9000)
+
     def run(self, case):
         import spydrnet as sdn
 
         res = Result()
-        B = gen_ir.build(case["design"])
-        nl = B.netlist
-        pre = model.wf(nl, strict=True)
-        if pre:
-            raise RuntimeError("generator produced ill-formed netlist: %r" % pre[:3])
+        if "example" in case:
+            nl = gen_ir.load_example(case)
+            res.label("bundled-example")
+            if nl is None or nl.top_instance is None or model.wf(nl, strict=True):
+                res.label("example-not-usable")
+                return res
+            case = dict(case, sample=0)
+        else:
+            nl = gen_ir.build(case["design"]).netlist
+            pre = model.wf(nl, strict=True)
+            if pre:
+                raise RuntimeError("generator produced ill-formed netlist: %r" % pre[:3])
         M = HModel(nl)
         if len(M.paths) > 300:
             res.label("paths>300")
